@@ -3,7 +3,7 @@
    list only through the hypothesis [sites_ok CallSites = true] (closed by reflexivity in Properties_C04.v). *)
 From Coq Require Import List ZArith Lia Bool.
 Import ListNotations.
-From V Require Import Base.U32 Base.Bytes Base.Iface Gen.ProtoConsts Gen.C04Consts C04.Model.
+From V Require Import Base.U32 Base.Bytes Base.Iface Gen.ProtoConsts Gen.C04Consts C04.Keepalive C04.Model.
 From V Require C01.Model.
 Local Open Scope Z_scope.
 
@@ -46,11 +46,11 @@ Record core := mkcore { c_reg : Z; c_rpc : option rpc; c_esp : list Z; c_recv : 
 Definition core_of (s : st) : core :=
   mkcore (registered s) (srpc s) (espbuf s) (recvbuf s) (link s) (clrstop s) (clrconn s) (conn s) (t_stop s).
 
-Ltac stsimp := cbn [now boot cycles0 lat lati fired seqc t_wifi t_timer1 t_iter t_wd t_recon t_stop t_value t_gpio2 t_srv srvdelay srvq wstatus wlast
+Ltac stsimp := cbn [now boot cycles0 lat lati fired seqc t_wifi t_timer1 t_iter t_wd t_recon t_stop t_value t_gpio2 t_srv srvdelay srvq nresp kabs kenv ktmo wstatus wlast
   link liveres deadres script started registered srpc espbuf recvbuf lastresp lastsent nextwd actto resolving gstate conn wbuf
   stalled outs halted stuck regpay clrstop clrconn evi
   set_now set_boot set_cycles0 set_lat set_lati set_fired set_seqc set_t_wifi set_t_timer1 set_t_iter set_t_wd set_t_recon set_t_stop
-  set_t_value set_t_gpio2 set_t_srv set_srvdelay set_srvq set_wstatus set_wlast set_link set_liveres set_deadres set_script set_started set_registered set_srpc
+  set_t_value set_t_gpio2 set_t_srv set_srvdelay set_srvq set_nresp set_kabs set_kenv set_ktmo set_wstatus set_wlast set_link set_liveres set_deadres set_script set_started set_registered set_srpc
   set_espbuf set_recvbuf set_lastresp set_lastsent set_nextwd set_actto set_resolving set_gstate set_conn set_wbuf set_stalled
   set_outs set_halted set_stuck set_regpay set_clrstop set_clrconn set_evi
   core_of c_reg c_rpc c_esp c_recv c_link c_cs c_cc c_conn c_tstop] in *.
@@ -87,6 +87,8 @@ Proof. unfold gpio_state_connected. destruct (_ =? _); [reflexivity|]. rewrite c
 Lemma core_sdk_sent s : core_of (snd (sdk_sent s)) = core_of s.
 Proof. unfold sdk_sent. destruct (script s); reflexivity. Qed.
 Lemma core_restart s : core_of (restart s) = core_of s. Proof. reflexivity. Qed.
+Lemma core_k_event e s : core_of (k_event e s) = core_of s. Proof. reflexivity. Qed.
+Lemma core_k_reset s : core_of (k_reset s) = core_of s. Proof. reflexivity. Qed.
 
 (* ---------- the invariant ---------- *)
 Definition fresh_rpc (p : rpc) : Prop :=
@@ -151,7 +153,7 @@ Proof.
   { subst s1. destruct (0 <? len (espbuf s)).
     - pose proof (core_sdk_sent s) as Hs. destruct (sdk_sent s) as [r s'] eqn:E. cbn [snd] in Hs.
       destruct (r =? 0).
-      + exists []. change (core_of (set_lastsent (uptime s') (wire_accept (espbuf s') (set_espbuf [] s'))))
+      + exists []. rewrite core_k_event. change (core_of (set_lastsent (uptime s') (wire_accept (espbuf s') (set_espbuf [] s'))))
           with (core_of (wire_accept (espbuf s') (set_espbuf [] s'))).
         rewrite core_wire_accept. stsimp. unfold with_esp. rewrite <- Hs. reflexivity.
       + exists (espbuf s). rewrite Hs. reflexivity.
@@ -164,7 +166,7 @@ Proof.
     destruct ((r =? ESP_INPROGRESS) || (r =? ESP_MAXNUM)).
     + destruct (core_append_buffer b s2) as [e2 H2]. exists e2. rewrite H2, Hs, H1. reflexivity.
     + destruct (r =? 0).
-      * exists e1. change (core_of (set_lastsent (uptime s2) (wire_accept b s2))) with (core_of (wire_accept b s2)).
+      * exists e1. rewrite core_k_event. change (core_of (set_lastsent (uptime s2) (wire_accept b s2))) with (core_of (wire_accept b s2)).
         rewrite core_wire_accept, Hs, H1. reflexivity.
       * exists e1. rewrite Hs, H1. reflexivity.
 Qed.
@@ -296,11 +298,11 @@ Lemma on_register_result_act code tmo s : Act s -> Act (on_register_result code 
 Proof.
   intros HA. unfold on_register_result. destruct (code =? RESULTCODE_TRUE); [|apply stop_with_delay_act; auto].
   destruct HA as [HI [Hr Hn]]. destruct (srpc s) as [p|] eqn:E; [|contradiction].
-  set (s1 := set_registered 1 (set_actto tmo s)).
+  set (s1 := k_reset (set_registered 1 (set_actto tmo s))).
   assert (E1 : srpc s1 = Some p) by exact E. rewrite E1.
   set (s2 := set_srpc _ s1).
   assert (A2 : Act s2 /\ registered s2 = 1).
-  { split; [|reflexivity]. split; [|split; subst s2 s1; stsimp; [lia|discriminate]].
+  { split; [|reflexivity]. split; [|split; subst s2 s1; unfold k_reset; stsimp; [lia|discriminate]].
     destruct (i_inst _ HI p E) as [Hsid HP]. cbn in Hsid, HP.
     destruct HI as [FX FY A B C D F G ST]. constructor; cbn in *; try (intros; discriminate); auto.
     - intros Hl. rewrite (F Hl) in E. discriminate.
@@ -317,16 +319,35 @@ Proof.
   apply async_call_act; auto; try apply consts_ok.
 Qed.
 
-Lemma handler_act f s : Act s -> Act (handler f s).
+Definition handler_body (f : list Z) (s0 : st) : st :=
+  let call := le32 f OFF_CALL_ID in
+  let ds := le32 f OFF_DATA_SIZE in
+  let pay := drop OFF_DATA f in
+  if (call =? SRV_REGISTER_RESULT) && (ds =? SZ_REGISTER_RESULT) then
+    on_register_result (s32 (le32 pay OFF_RESULT_CODE)) (nthz pay OFF_RESULT_TIMEOUT) s0
+  else if (call =? SRV_VERSIONERROR) && (ds =? SZ_VERSIONERROR) then stop_with_delay s0
+  else if (call =? SRV_SET_ACTIVITY_TIMEOUT_RESULT) && (ds =? SZ_SET_ACTIVITY_TIMEOUT_RESULT) then
+    k_reset (set_actto (nthz pay OFF_SAT_RESULT_TIMEOUT) s0)
+  else if (call =? SRV_GET_CHANNEL_STATE) && (ds =? SZ_CHANNEL_STATE_REQUEST) then
+    async_call (api_call A_CHSTATE) (zeros (api_size A_CHSTATE)) s0
+  else s0.
+Definition handler_pre (s : st) : st := k_event (Resp (uptime s)) (set_nresp (nresp s + 1) (set_lastresp (uptime s) s)).
+Lemma handler_eq f s : handler f s = handler_body f (handler_pre s).
+Proof. reflexivity. Qed.
+Lemma handler_body_act f s0 : Act s0 -> Act (handler_body f s0).
 Proof.
-  intros HA. unfold handler.
-  assert (H0 : Act (set_lastresp (uptime s) s)) by (eapply Act_core; [|eauto]; reflexivity).
+  intros H0. unfold handler_body.
   destruct (_ && _); [apply on_register_result_act; auto|].
   destruct (_ && _); [apply stop_with_delay_act; auto|].
-  destruct (_ && _); [eapply Act_core; [|eauto]; reflexivity|].
+  destruct (_ && _); [eapply Act_core; [rewrite core_k_reset; reflexivity|eauto]|].
   destruct (_ && _); auto.
   destruct consts_ok as [? ? ? ? [C1 C2]].
   apply async_call_act; auto. rewrite C2. discriminate.
+Qed.
+Lemma handler_act f s : Act s -> Act (handler f s).
+Proof.
+  intros HA. rewrite handler_eq. apply handler_body_act.
+  unfold handler_pre. eapply Act_core; [rewrite core_k_event; reflexivity|eauto].
 Qed.
 
 Lemma set_rpc_same_act s p p' : Act s -> srpc s = Some p -> sid p' = sid p -> hist p' = hist p -> got_ok p' = got_ok p ->
@@ -493,11 +514,16 @@ Proof. unfold is_registered. destruct (srpc s); [|discriminate]. intros H; apply
 
 Lemma timer1_cb_inv s : Inv s -> Inv (timer1_cb s).
 Proof.
-  intros HI. unfold timer1_cb. destruct (is_registered s && _) eqn:E; auto.
-  apply andb_true_iff in E. destruct E as [E _]. apply is_registered_true in E. destruct E as [R N].
-  destruct (_ <=? _); [apply devconn_reconnect_inv; auto|].
-  destruct (_ || _); auto.
-  apply async_call_act; [split; auto; split; auto; lia| apply consts_ok | auto].
+  intros HI. unfold timer1_cb. destruct (is_registered s) eqn:E; auto.
+  apply is_registered_true in E. destruct E as [R N].
+  set (s1 := if 0 <? actto s then _ else s).
+  assert (C1 : core_of s1 = core_of s) by (subst s1; destruct (0 <? actto s); reflexivity).
+  assert (I1 : Inv s1) by (eapply Inv_core; eauto).
+  assert (R1 : registered s1 = 1) by (change (c_reg (core_of s1) = 1); rewrite C1; exact R).
+  assert (N1 : srpc s1 <> None) by (change (c_rpc (core_of s1) <> None); rewrite C1; exact N).
+  destruct (t1_decide _ _ _ _); auto.
+  - apply async_call_act; [split; auto; split; auto; lia| apply consts_ok | auto].
+  - apply devconn_reconnect_inv; auto.
 Qed.
 Lemma watchdog_cb_inv s : Inv s -> Inv (watchdog_cb s).
 Proof.
@@ -615,22 +641,27 @@ Proof.
     constructor; cbn; auto; try (intros; discriminate).
     - intros p Hp. inversion Hp; subst p. split; [reflexivity|apply PF].
     - intros p t Hp Ht. inversion Hp; subst p. discriminate Ht. }
-  assert (AUX : forall s' c0, core_of s' = c0 -> InvC c0 ->
-            Inv s' /\ registered s' = c_reg c0 /\ srpc s' = c_rpc c0 /\ conn s' = c_conn c0 /\ link s' = c_link c0 /\
-            espbuf s' = c_esp c0 /\ recvbuf s' = c_recv c0).
-  { intros s' c0 <- H. split; [exact H|]. repeat split. }
   assert (CC : clrconn s2 = clrconn s) by (change (c_cc (core_of s2) = clrconn s); rewrite C2; reflexivity).
   destruct (clrconn s2) eqn:Ecc.
-  - set (s3 := set_recvbuf [] (set_espbuf [] s2)).
-    assert (C3 : core_of s3 = with_recv [] (with_esp [] (core_of s2))) by reflexivity. rewrite C2 in C3. cbn in C3.
-    destruct (AUX (emit O_FRESH [now s3; conn s3; len (espbuf s3); len (recvbuf s3); registered s3; evi s3] s3) _ C3 (IG [] []))
-      as [X1 [X2 [X3 [X4 [X5 [X6 X7]]]]]].
-    cbn in X2, X3, X4, X5, X6, X7. repeat (split; auto).
-  - destruct (AUX (emit O_FRESH [now s2; conn s2; len (espbuf s2); len (recvbuf s2); registered s2; evi s2] s2) _ C2 (IG _ _))
-      as [X1 [X2 [X3 [X4 [X5 [X6 X7]]]]]].
-    cbn in X2, X3, X4, X5, X6, X7. split; [exact X1|]. split; [exact X2|]. split; [exact X3|]. split; [exact X4|]. split; [exact X5|].
+  - remember (set_recvbuf [] (set_espbuf [] s2)) as s3 eqn:E3.
+    assert (C3 : core_of s3 = with_recv [] (with_esp [] (core_of s2))) by (subst s3; reflexivity). rewrite C2 in C3. cbn in C3.
+    clear E3. remember (emit O_FRESH [now s3; conn s3; len (espbuf s3); len (recvbuf s3); registered s3; evi s3] s3) as s4 eqn:E4.
+    assert (C4 : core_of s4 = core_of s3) by (subst s4; apply core_emit). rewrite C3 in C4. clear E4.
+    split; [unfold Inv; rewrite C4; apply IG|].
+    split; [change (c_reg (core_of s4) = 0); rewrite C4; reflexivity|].
+    split; [change (c_rpc (core_of s4) = Some (fresh_instance (conn s + 1) (now s))); rewrite C4; reflexivity|].
+    split; [change (c_conn (core_of s4) = conn s + 1); rewrite C4; reflexivity|].
+    split; [change (c_link (core_of s4) = L_LIVE); rewrite C4; reflexivity|].
+    intros _. split; [change (c_esp (core_of s4) = []); rewrite C4; reflexivity|change (c_recv (core_of s4) = []); rewrite C4; reflexivity].
+  - remember (emit O_FRESH [now s2; conn s2; len (espbuf s2); len (recvbuf s2); registered s2; evi s2] s2) as s4 eqn:E4.
+    assert (C4 : core_of s4 = core_of s2) by (subst s4; apply core_emit). rewrite C2 in C4. clear E4.
+    split; [unfold Inv; rewrite C4; apply IG|].
+    split; [change (c_reg (core_of s4) = 0); rewrite C4; reflexivity|].
+    split; [change (c_rpc (core_of s4) = Some (fresh_instance (conn s + 1) (now s))); rewrite C4; reflexivity|].
+    split; [change (c_conn (core_of s4) = conn s + 1); rewrite C4; reflexivity|].
+    split; [change (c_link (core_of s4) = L_LIVE); rewrite C4; reflexivity|].
     rewrite <- CC, orb_false_r. intros Hcs. destruct (i_none_clean _ HI Hcs Hn) as [Y1 Y2]. cbn in Y1, Y2.
-    split; [exact (eq_trans X6 Y1)|exact (eq_trans X7 Y2)].
+    split; [change (c_esp (core_of s4) = []); rewrite C4; exact Y1|change (c_recv (core_of s4) = []); rewrite C4; exact Y2].
 Qed.
 
 Lemma disccb_inv s : Inv s -> Inv (dev_step s DiscCb).
